@@ -86,6 +86,15 @@ fn injections(b: &Built, rng: &mut Rng) -> Vec<Inj> {
         // keep data runs intact: an IHDR between two data chunks of a run would (also) be a consecutiveness violation, which is fine
         c.insert(i, chunks[0].clone());
         v.push(Inj { label: format!("second-IHDR#{}", i), bytes: asm(&c), frame: affected_from(&c, i) });
+        // the same structural violations with a chunk of LENGTH ZERO (a second IHDR / a second PLTE stays one whatever its length)
+        let mut c = chunks.clone();
+        c.insert(1, Chunk::new(b"IHDR", vec![]));
+        v.push(Inj { label: "zero-length-second-IHDR#1".into(), bytes: asm(&c), frame: Some(0) });
+        if let Some(pi) = chunks.iter().position(|x| &x.ty == b"PLTE") {
+            let mut c = chunks.clone();
+            c.insert(pi + 1, Chunk::new(b"PLTE", vec![]));
+            v.push(Inj { label: format!("zero-length-second-PLTE#{}", pi + 1), bytes: asm(&c), frame: Some(0) });
+        }
     }
     // 3 illegal IHDR fields
     for (pos, val, what) in [
@@ -376,7 +385,9 @@ fn check_injection(o: &mut Out, base: &str, inj: &Inj, opts: Opts, base_frames: 
                 && (s.frames.iter().skip(k + 1).any(|f| f.starts_with("err:Format")) || s.fin.starts_with("err:Format")),
             _ => false,
         };
-        let kind_class = if late { "structure-violation-behind-the-rows-of-a-frame-reported-one-call-late" } else { kind };
+        // known finding: a chunk of length zero goes from its header straight to its CRC - no parser (and none of the once-only rules) sees it
+        let zero_len = inj.label.starts_with("zero-length-") && kind == "invalid-structure-decoded-successfully";
+        let kind_class = if late { "structure-violation-behind-the-rows-of-a-frame-reported-one-call-late" } else if zero_len { "zero-length-chunk-never-reaches-its-parser" } else { kind };
         let mut v = viol(kind, vec![("base", jstr(base)), ("injection", jstr(&inj.label)), ("affected_frame", format!("{:?}", inj.frame).replace("Some(", "").replace(')', "").replace("None", "\"trailer\"")),
             ("opts", opts.bits().to_string()), ("bytes", jstr(&hex(&inj.bytes))), ("result", jstr(&s.pixels_text()))]);
         v = v.replacen(&format!("\"class\": \"{}\"", kind), &format!("\"class\": \"{}\"", kind_class), 1);
